@@ -14,7 +14,7 @@
    reference algorithm as oracle): "whenever the closest pair is unique the bins equal those
    of the reference streaming algorithm"; and the mean under binary64 ("up to rounding"). *)
 From Coq Require Import QArith ZArith List Sorted Lia.
-From Orso Require Import Gen.C13_Disto Model.C13 Model.C13_Q Proofs.C13_lists Proofs.C13 Proofs.C13_hist Proofs.C13_prog.
+From Orso Require Import Gen.C13_Disto Model.C13 Model.C13_Q Proofs.C13_lists Proofs.C13 Proofs.C13_hist Proofs.C13_prog Proofs.C13_cache.
 Import ListNotations.
 Open Scope Q_scope.
 
@@ -118,6 +118,52 @@ Theorem C13_any_program :
   Forall obs_ok (run_prog (AA fadd fsub fmul fdiv fofZ ftrunc) e p).
 Proof. exact run_prog_ok. Qed.
 Print Assumptions C13_any_program.
+
+(* ---- the cached nearest-neighbour bookkeeping ("one stale cached difference silently merges
+   the wrong bins").  [cache_exact s]: if the histogram carries a gap cache then the cache IS the
+   list of adjacent differences of the current bins, and min_diff is a minimum of it.  ---- *)
+Theorem C13_gap_cache_meaning :
+  forall (fadd fsub fmul fdiv : Q -> Q -> Q) (fofZ : Z -> Q) (ftrunc : Q -> Z) (s : @st Q) (d : list Q),
+  cache_exact fadd fsub fmul fdiv fofZ ftrunc s -> diffs s = Some d ->
+  bins s <> [] /\
+  (forall j, nth_error d j = match nth_error (bins s) j, nth_error (bins s) (S j) with
+                             | Some x, Some y => Some (fsub (fst y) (fst x)) | _, _ => None end) /\
+  match min_diff s with
+  | Fin m => (forall x, In x d -> m <= x) /\ (exists x, In x d /\ x == m)
+  | Inf => d = []
+  end.
+Proof. exact cache_exact_meaning. Qed.
+Print Assumptions C13_gap_cache_meaning.
+
+(* one update keeps the cache exact - for ANY arithmetic, any value, any weight, whichever of
+   the four paths (exact hit, in-place merge, append, insert) it takes and however many merges
+   _trim performs; no other hypothesis *)
+Theorem C13_gap_cache_exact_update :
+  forall (fadd fsub fmul fdiv : Q -> Q -> Q) (fofZ : Z -> Q) (ftrunc : Q -> Z) (s s' : @st Q) (v : Q) (c : Z),
+  cache_exact fadd fsub fmul fdiv fofZ ftrunc s ->
+  update (AA fadd fsub fmul fdiv fofZ ftrunc) s v c = Some s' ->
+  cache_exact fadd fsub fmul fdiv fofZ ftrunc s'.
+Proof. exact update_exact. Qed.
+Print Assumptions C13_gap_cache_exact_update.
+
+(* every histogram observed while running ANY program (new / update / merge / + / bulk load /
+   dump-load / load of given bins / queries) has an exact cache; the only requirement is that
+   load() is not handed an empty bin list (dump() of an empty histogram raises, so dump/load
+   never does) - C13_load_empty_stale below shows the requirement is needed *)
+Theorem C13_gap_cache_exact_program :
+  forall (fadd fsub fmul fdiv : Q -> Q -> Q) (fofZ : Z -> Q) (ftrunc : Q -> Z)
+         (p : list (@op Q)) (e : @env Q),
+  env_exact fadd fsub fmul fdiv fofZ ftrunc e -> Forall op_exact_ok p ->
+  Forall (obs_exact fadd fsub fmul fdiv fofZ ftrunc) (run_prog (AA fadd fsub fmul fdiv fofZ ftrunc) e p).
+Proof. exact run_prog_exact. Qed.
+Print Assumptions C13_gap_cache_exact_program.
+
+(* outside the property's histories: load([], None, None) followed by an update leaves a cached
+   gap for a one-bin histogram (observation recorded in DESIGN.md; dump() never produces it) *)
+Example C13_load_empty_stale :
+  option_map (fun s => (length (bins s), diffs s)) (update QA (load QA 2 [] None None) 1 1%Z)
+  = Some (1%nat, Some [0]).
+Proof. vm_compute. reflexivity. Qed.
 
 (* the default capacity the source gives a reloaded histogram satisfies that premise *)
 Theorem C13_default_capacity : (2 <= BIN_COUNT)%nat /\ (1 <= BULK_FACTOR)%nat.
